@@ -43,7 +43,7 @@ func runAttr(e *Engine, tier Tier, tag string) *PropRun {
 		return strings.HasPrefix(file, "pkg/sql/parser/") || strings.HasPrefix(file, "pkg/sql/tokenizer/") || strings.HasPrefix(file, "pkg/gosqlx/")
 	})
 	rs := e.verifyAll(fns, opts, func(fr *Frame, q *Query) { a.constFacts(q) })
-	run := &PropRun{Results: rs, FUC: fucList(rs), Claim: func(o *Obligation) bool { return o.Kind == "post" }}
+	run := &PropRun{Results: rs, FUC: fucList(rs), Claim: func(o *Obligation) bool { return o.Kind == "post" || o.Kind == "pre" }}
 	run.Assumptions = []string{
 		"errors.As finds a *errors.Error exactly when the value is one or wraps one with %w / Unwrap (ghost attribute structured)",
 		"fmt.Errorf with %w preserves the wrapped error's attributes; without %w the result is unstructured and matches no context error",
